@@ -301,7 +301,9 @@ ws_evhttp_read_cb(struct bufferevent *bufev, void *arg)
 	struct evbuffer *input = bufferevent_get_input(evws->bufev);
 
 	bufferevent_incref_and_lock_(evws->bufev);
-	while ((in_len = evbuffer_get_length(input))) {
+	/* once the session is closed (close frame, protocol error or evws_close()
+	 * called from the message callback) nothing more may be delivered */
+	while (!evws->closed && (in_len = evbuffer_get_length(input))) {
 		unsigned char *data = evbuffer_pullup(input, in_len);
 		if (data == NULL) {
 			goto bailout;
@@ -322,7 +324,8 @@ ws_evhttp_read_cb(struct bufferevent *bufev, void *arg)
 			if (evws->incomplete_frames != NULL) {
 				/* we already have incomplete frames in internal buffer
 				 * and need to concatenate them with final one */
-				evbuffer_add(evws->incomplete_frames, data, msg_len);
+				if (msg_len > 0)
+					evbuffer_add(evws->incomplete_frames, data, msg_len);
 
 				data = evbuffer_pullup(evws->incomplete_frames, -1);
 
